@@ -94,11 +94,11 @@ theorem map_slotOf_zip (ps : List Picked) (ws : List (List Rat)) (h : ws.length 
 /-- **`treat_output` up to the sort** releases the job's slots and keeps `Core` and `Fam` -/
 theorem preSort_inv {s s3 : St} {H : List (Nat × Nat)} (job : Job) (status : Status)
     (newW : List (List Rat)) (tn : Nat) (pns : List Nat)
-    (hc : Core s (heldJob job ++ H) s.trajNum) (hf : Fam s s.trajNum)
+    (hc : CoreR s (heldJob job ++ H) s.trajNum) (hf : Fam s s.trajNum)
     (hge : ∀ p ∈ job.picked, -1 ≤ p.ens) (hold : job.pnumOld = job.picked.map (·.pn))
     (hvec : status = .acc → ∀ pw ∈ job.picked.zip newW, VecOk s.n pw.1.ens pw.2)
     (hp : preSort s job status newW = .ok (s3, tn, pns)) :
-    Core s3 H tn ∧ Fam s3 tn ∧ AuxEq s s3 ∧ s.trajNum ≤ tn ∧
+    CoreR s3 H tn ∧ Fam s3 tn ∧ AuxEqR s s3 ∧ s.trajNum ≤ tn ∧
       (status = .acc → ∀ q ∈ pns, s.trajNum ≤ q ∧ q < tn) := by
   unfold preSort at hp
   simp only [] at hp
@@ -119,9 +119,9 @@ theorem preSort_inv {s s3 : St} {H : List (Nat × Nat)} (job : Job) (status : St
   simp only [Except.ok.injEq, Prod.mk.injEq] at hp
   obtain ⟨rfl, rfl, rfl⟩ := hp
   have hfst : (job.picked.zip ws).map Prod.fst = job.picked := List.map_fst_zip (by omega)
-  have h0 : Core s (heldPicked ((job.picked.zip ws).map Prod.fst) ++ H) s.trajNum := by
+  have h0 : CoreR s (heldPicked ((job.picked.zip ws).map Prod.fst) ++ H) s.trajNum := by
     rw [hfst]; exact hc
-  obtain ⟨hc1, ha1⟩ := perEns_core status _ h0 hper
+  obtain ⟨hc1, ha1⟩ := perEns_coreR status _ h0 hper
   have hvec' : status = .acc → ∀ pw ∈ job.picked.zip ws, VecOk s.n pw.1.ens pw.2 := by
     intro ha
     have : ws = newW := by rw [← hws, if_pos ha]
@@ -131,12 +131,12 @@ theorem preSort_inv {s s3 : St} {H : List (Nat × Nat)} (job : Job) (status : St
       have := List.mem_map_of_mem (f := Prod.fst) hpw
       rw [hfst] at this; exact this))
     hvec' hper
-  obtain ⟨hce2, ha2⟩ := recordFrac_frame hrec
+  obtain ⟨hce2, ha2⟩ := recordFrac_frameR hrec
   have hc2 := hc1.congr hce2
   have hf2 := recordFrac_fam hf1 hrec
   by_cases hacc : status = .acc
   · rw [if_pos hacc] at hwr
-    obtain ⟨hce3, ha3⟩ := writeRows_frame _ hwr
+    obtain ⟨hce3, ha3⟩ := writeRows_frameR _ hwr
     have hc3 := hc2.congr hce3
     subst hacc
     have hheld : ∀ p ∈ job.picked, slotOf p < s.n - 1 ∧ s.trajs[slotOf p]? = some (some p.pn) ∧
@@ -180,12 +180,65 @@ theorem preSort_inv {s s3 : St} {H : List (Nat × Nat)} (job : Job) (status : St
     subst hwr
     exact ⟨hc2, hf2, ha1.trans ha2, hle, fun h => absurd h hacc⟩
 
+/-- `preSort` keeps "idle slots have a non-zero diagonal while recorded jobs wait for re-issue" -/
+theorem preSort_diagR {s s3 : St} {H : List (Nat × Nat)} {tn0 : Nat} (job : Job) (status : Status)
+    (newW : List (List Rat)) (tn : Nat) (pns : List Nat) (hc : CoreR s H tn0) (hd : DiagR s)
+    (hp : preSort s job status newW = .ok (s3, tn, pns)) : DiagR s3 := by
+  unfold preSort at hp
+  simp only [] at hp
+  generalize (if status = Status.acc then newW else job.picked.map (fun _ => [])) = ws at hp
+  split at hp
+  · exact absurd hp (by simp)
+  split at hp
+  · exact absurd hp (by simp)
+  rename_i s1 tn1 pnNews hper
+  split at hp
+  · exact absurd hp (by simp)
+  rename_i s2 hrec
+  split at hp
+  · exact absurd hp (by simp)
+  rename_i s3' hwr
+  simp only [Except.ok.injEq, Prod.mk.injEq] at hp
+  obtain ⟨rfl, _, _⟩ := hp
+  obtain ⟨_, g2, g3, g4⟩ := perEns_idle status _ (by rw [hc.lenW, hc.lenL]) hper
+  obtain ⟨hce2, _⟩ := recordFrac_frameR hrec
+  have hce3 : CoreEqR s2 s3' := by
+    split at hwr
+    · exact (writeRows_frameR _ hwr).1
+    · simp only [Except.ok.injEq] at hwr
+      subst hwr; exact CoreEqR.refl _
+  have hce := hce2.trans hce3
+  intro h0 hne i hi
+  rw [hce.toinitiate, g2] at h0
+  rw [hce.locked0, g3] at hne
+  rw [hce.locks] at hi
+  rw [hce.W]
+  rcases g4 i hi with ⟨h1, h2⟩ | h1
+  · rw [entryM_congr _ _ _ _ h2]
+    exact hd h0 hne i h1
+  · exact h1
+
+/-- during the initiation phase (`toinitiate ≠ -1`) `sort_trajstate` does nothing -/
+theorem sortTrajstate_noop (fuel : Nat) {s s' : St} {k : Nat} (hto : s.toinitiate ≠ -1)
+    (h : sortTrajstate fuel s = .ok (s', k)) : s' = s := by
+  cases fuel with
+  | zero => simp [sortTrajstate] at h
+  | succ fuel =>
+    have hnone : sortStep s = .ok none := by
+      unfold sortStep
+      simp only []
+      rw [if_pos (fun hh => hto hh.2)]
+    unfold sortTrajstate at h
+    rw [hnone] at h
+    simp only [Except.ok.injEq, Prod.mk.injEq] at h
+    exact h.1.symm
+
 /-- **the sort never fails on the state `treat_output` hands it** (any number of workers):
     with the scheduler's fuel `n² + 4` it ends, in a state with the invariants, where the loop
     condition is false -/
 theorem sort_after_preSort {s3 : St} {H : List (Nat × Nat)} {tn : Nat} (fuel : Nat)
-    (hc : Core s3 H tn) (hf : Fam s3 tn) (hfuel : s3.n * s3.n < fuel) :
-    ∃ s4 k, sortTrajstate fuel s3 = .ok (s4, k) ∧ Core s4 H tn ∧ AuxEq s3 s4 ∧ Fam s4 tn ∧
+    (hc : CoreR s3 H tn) (hf : Fam s3 tn) (hfuel : s3.n * s3.n < fuel) :
+    ∃ s4 k, sortTrajstate fuel s3 = .ok (s4, k) ∧ CoreR s4 H tn ∧ AuxEq s3 s4 ∧ Fam s4 tn ∧
       sortStep s4 = .ok none :=
   sortTrajstate_terminates fuel hc hf (Nat.lt_of_le_of_lt (mu_le s3 hc.lenW) hfuel)
 
@@ -193,13 +246,13 @@ theorem sort_after_preSort {s3 : St} {H : List (Nat × Nat)} {tn : Nat} (fuel : 
     non-zero; numbers handed out by an accepted move were never used -/
 theorem treatOutput_inv {s s' : St} {H : List (Nat × Nat)} (job : Job) (status : Status)
     (newW : List (List Rat)) (fuel : Nat) (pns : List Nat) (it : Nat)
-    (hc : Core s (heldJob job ++ H) s.trajNum) (hf : Fam s s.trajNum)
+    (hc : CoreR s (heldJob job ++ H) s.trajNum) (hf : Fam s s.trajNum) (hd : DiagR s)
     (hge : ∀ p ∈ job.picked, -1 ≤ p.ens) (hold : job.pnumOld = job.picked.map (·.pn))
     (hvec : status = .acc → ∀ pw ∈ job.picked.zip newW, VecOk s.n pw.1.ens pw.2)
     (ht : treatOutput s job status newW fuel = .ok (s', pns, it)) :
     Fam s' s'.trajNum ∧ s.trajNum ≤ s'.trajNum ∧
       (s.toinitiate = -1 → ∀ i, i < s'.n - 1 → entryM s'.W i i ≠ 0) ∧
-      (status = .acc → ∀ q ∈ pns, s.trajNum ≤ q ∧ q < s'.trajNum) := by
+      (status = .acc → ∀ q ∈ pns, s.trajNum ≤ q ∧ q < s'.trajNum) ∧ DiagR s' := by
   rw [treatOutput_eq] at ht
   split at ht
   · exact absurd ht (by simp)
@@ -210,7 +263,7 @@ theorem treatOutput_inv {s s' : St} {H : List (Nat × Nat)} (job : Job) (status 
   simp only [Except.ok.injEq, Prod.mk.injEq] at ht
   obtain ⟨rfl, rfl, _⟩ := ht
   obtain ⟨hc3, hf3, ha3, hle, hfresh⟩ := preSort_inv job status newW tn pnNews hc hf hge hold hvec hpre
-  obtain ⟨hc4, ha4⟩ := sortTrajstate_core fuel hc3 hsort
+  obtain ⟨hc4, ha4⟩ := sortTrajstate_coreR fuel hc3 hsort
   have hfix := sortTrajstate_fix fuel hsort
   -- Fam after the sort: re-run the loop with enough fuel and compare
   have hf4 : Fam s4 tn := by
@@ -251,16 +304,26 @@ theorem treatOutput_inv {s s' : St} {H : List (Nat × Nat)} (job : Job) (status 
     have := hmono _ _ _ _ _ _ _ hrun hsort
     subst this
     exact hf4'
-  refine ⟨hf4.congr ⟨rfl, rfl, rfl, rfl, rfl, rfl, rfl⟩, hle, ?_, hfresh⟩
-  intro hto i hi
-  have hto4 : s4.toinitiate = -1 := by rw [ha4.toinitiate, ha3.toinitiate]; exact hto
-  exact diag_of_sortStep_none hfix hto4 i hi
+  have hd3 := preSort_diagR job status newW tn pnNews hc hd hpre
+  refine ⟨hf4.congr ⟨rfl, rfl, rfl, rfl, rfl, rfl, rfl⟩, hle, ?_, hfresh, ?_⟩
+  · intro hto i hi
+    have hto4 : s4.toinitiate = -1 := by rw [ha4.toinitiate, ha3.toinitiate]; exact hto
+    exact diag_of_sortStep_none hfix hto4 i hi
+  · intro h0
+    have h03 : s3.toinitiate ≠ -1 := by
+      have : s4.toinitiate = s3.toinitiate := ha4.toinitiate
+      have h0' : 0 ≤ s4.toinitiate := h0
+      omega
+    have := sortTrajstate_noop fuel h03 hsort
+    subst this
+    exact hd3 h0
 
 /-! ### the scheduler invariant -/
 
 structure Inv5 (y : Sys) : Prop where
-  inv : Inv y
+  inv : InvR y
   fam : Fam y.s y.s.trajNum
+  diagR : DiagR y.s
   pnum : ∀ j ∈ y.jobs, j.pnumOld = j.picked.map (·.pn)
 
 /-- the outcomes an event brings in are in C02's weight family: for an accepted move, the new
@@ -270,22 +333,34 @@ def EvOk (y : Sys) : Ev → Prop
       ∀ pw ∈ job.picked.zip newW, VecOk y.s.n pw.1.ens pw.2
   | _ => True
 
-theorem initiate_frame (s : St) : CoreEq s (initiate s).1 ∧ FamEq s (initiate s).1 ∧
-    (initiate s).1.trajNum = s.trajNum := by
+/-- `initiate()` touches `cworker` and `toinitiate` only, and never switches the re-issue phase on -/
+theorem initiate_frame (s : St) : (initiate s).1.n = s.n ∧ (initiate s).1.W = s.W ∧
+    (initiate s).1.trajs = s.trajs ∧ (initiate s).1.locks = s.locks ∧
+    (initiate s).1.locked0 = s.locked0 ∧ (0 ≤ (initiate s).1.toinitiate → 0 ≤ s.toinitiate) ∧
+    FamEq s (initiate s).1 ∧ (initiate s).1.trajNum = s.trajNum := by
   unfold initiate
   split
-  · exact ⟨CoreEq.refl s, FamEq.refl s, rfl⟩
-  · exact ⟨⟨rfl, rfl, rfl, rfl, rfl⟩, ⟨rfl, rfl, rfl, rfl, rfl, rfl, rfl⟩, rfl⟩
+  · exact ⟨rfl, rfl, rfl, rfl, rfl, fun h => h, FamEq.refl s, rfl⟩
+  · refine ⟨rfl, rfl, rfl, rfl, rfl, ?_, ⟨rfl, rfl, rfl, rfl, rfl, rfl, rfl⟩, rfl⟩
+    simp only []
+    intro h
+    split at h <;> omega
 
-theorem loop_frame (s : St) : CoreEq s (loop s).1 ∧ FamEq s (loop s).1 ∧
+theorem loop_frame (s : St) : CoreEqR s (loop s).1 ∧ FamEq s (loop s).1 ∧
     (loop s).1.trajNum = s.trajNum ∧ (loop s).1.toinitiate = s.toinitiate := by
   unfold loop
   split
-  · exact ⟨CoreEq.refl s, FamEq.refl s, rfl, rfl⟩
-  · exact ⟨⟨rfl, rfl, rfl, rfl, rfl⟩, ⟨rfl, rfl, rfl, rfl, rfl, rfl, rfl⟩, rfl, rfl⟩
+  · exact ⟨CoreEqR.refl s, FamEq.refl s, rfl, rfl⟩
+  · exact ⟨⟨rfl, rfl, rfl, rfl, rfl, rfl⟩, ⟨rfl, rfl, rfl, rfl, rfl, rfl, rfl⟩, rfl, rfl⟩
+
+theorem DiagR.congr {s s' : St} (h : DiagR s) (hW : s'.W = s.W) (hL : s'.locks = s.locks)
+    (h0 : s'.locked0 = s.locked0) (hto : 0 ≤ s'.toinitiate → 0 ≤ s.toinitiate) : DiagR s' := by
+  intro h1 h2 i hi
+  rw [hW]
+  exact h (hto h1) (by rw [← h0]; exact h2) i (by rw [← hL]; exact hi)
 
 theorem prep_trajNum {s s' : St} {H : List (Nat × Nat)} (prev : Option Nat) (o : PickOutcome) (saved : Nat)
-    (job : Job) (ds : List Draw) (hc : Core s H s.trajNum)
+    (job : Job) (ds : List Draw) (hc : CoreR s H s.trajNum)
     (h : prep s prev o saved = .ok (s', job, ds)) : s'.trajNum = s.trajNum := by
   unfold prep at h
   simp only [] at h
@@ -295,8 +370,10 @@ theorem prep_trajNum {s s' : St} {H : List (Nat × Nat)} (prev : Option Nat) (o 
   rename_i s1 ps ds1 hr
   have ha : AuxEq s s1 := by
     split at hr
-    · exact (pickLock_core hc o saved ps ds1 hr).2.1
-    · exact (pick_core hc o ps ds1 hr).2.1
+    · rename_i h0
+      exact (pickLock_coreR hc h0 o saved ps ds1 hr).2.1
+    · rename_i h0
+      exact (pick_coreR hc o ps ds1 hr (Or.inl (by omega))).2.1.toAux
   split at h
   · exact absurd h (by simp)
   split at h
@@ -309,12 +386,12 @@ theorem prep_trajNum {s s' : St} {H : List (Nat × Nat)} (prev : Option Nat) (o 
 
 theorem start_preserves5 {y y' : Sys} (o : PickOutcome) (saved : Nat) (hi : Inv5 y)
     (h : sysStep y (.start o saved) = .ok y') : Inv5 y' ∧ y'.s.trajNum = y.s.trajNum := by
-  have hinv := start_preserves o saved hi.inv h
+  have hinv := start_preservesR o saved hi.inv h
   unfold sysStep at h
-  obtain ⟨hce, hfe, htn⟩ := initiate_frame y.s
-  generalize hin : initiate y.s = r at h hce hfe htn
+  obtain ⟨e1, e2, e3, e4, e5, e6, hfe, htn⟩ := initiate_frame y.s
+  generalize hin : initiate y.s = r at h e1 e2 e3 e4 e5 e6 hfe htn
   obtain ⟨s1, go⟩ := r
-  simp only [] at h hce hfe htn
+  simp only [] at h e1 e2 e3 e4 e5 e6 hfe htn
   split at h
   · exact absurd h (by simp)
   split at h
@@ -322,11 +399,13 @@ theorem start_preserves5 {y y' : Sys} (o : PickOutcome) (saved : Nat) (hi : Inv5
   rename_i s2 job ds hprep
   simp only [Except.ok.injEq] at h
   subst h
-  have hc1 : Core s1 (held y.jobs) s1.trajNum := by rw [htn]; exact hi.inv.core.congr hce
+  have hc1 : CoreR s1 (held y.jobs) s1.trajNum := by
+    rw [htn]; exact hi.inv.core.congrTo e1 e2 e3 e4 e5 e6
   have hf1 : Fam s1 s1.trajNum := by rw [htn]; exact hi.fam.congr hfe
-  obtain ⟨hf2, hpn⟩ := prep_fam hc1 hf1 none o saved job ds hprep
+  have hd1 : DiagR s1 := hi.diagR.congr e2 e4 e5 e6
+  obtain ⟨hf2, hd2, hpn⟩ := prep_fam hc1 hf1 hd1 none o saved job ds hprep
   have htn2 := prep_trajNum none o saved job ds hc1 hprep
-  refine ⟨⟨hinv, ?_, ?_⟩, ?_⟩
+  refine ⟨⟨hinv, ?_, hd2, ?_⟩, ?_⟩
   · show Fam s2 s2.trajNum
     rw [htn2]; exact hf2
   · intro j hj
@@ -339,17 +418,17 @@ theorem start_preserves5 {y y' : Sys} (o : PickOutcome) (saved : Nat) (hi : Inv5
 
 theorem initDone_preserves5 {y y' : Sys} (hi : Inv5 y) (h : sysStep y .initDone = .ok y') :
     Inv5 y' ∧ y'.s.trajNum = y.s.trajNum := by
-  have hinv := initDone_preserves hi.inv h
+  have hinv := initDone_preservesR hi.inv h
   unfold sysStep at h
-  obtain ⟨hce, hfe, htn⟩ := initiate_frame y.s
-  generalize hin : initiate y.s = r at h hce hfe htn
+  obtain ⟨e1, e2, e3, e4, e5, e6, hfe, htn⟩ := initiate_frame y.s
+  generalize hin : initiate y.s = r at h e1 e2 e3 e4 e5 e6 hfe htn
   obtain ⟨s1, go⟩ := r
-  simp only [] at h hce hfe htn
+  simp only [] at h e1 e2 e3 e4 e5 e6 hfe htn
   split at h
   · exact absurd h (by simp)
   simp only [Except.ok.injEq] at h
   subst h
-  refine ⟨⟨hinv, ?_, hi.pnum⟩, htn⟩
+  refine ⟨⟨hinv, ?_, hi.diagR.congr e2 e4 e5 e6, hi.pnum⟩, htn⟩
   show Fam s1 s1.trajNum
   rw [htn]; exact hi.fam.congr hfe
 
@@ -360,7 +439,7 @@ theorem step_preserves5 {y y' : Sys} (k : Nat) (status : Status) (newW : List (L
     ∃ (s2 : St) (job : Job) (pns : List Nat) (it : Nat),
       y.jobs[k]? = some job ∧
       treatOutput (loop y.s).1 job status newW (sortFuel (loop y.s).1) = .ok (s2, pns, it) ∧
-      Core s2 (held (y.jobs.eraseIdx k)) s2.trajNum ∧ Fam s2 s2.trajNum ∧
+      CoreR s2 (held (y.jobs.eraseIdx k)) s2.trajNum ∧ Fam s2 s2.trajNum ∧
       s2.trajNum = y'.s.trajNum ∧
       (y.s.toinitiate = -1 → ∀ i, i < s2.n - 1 → entryM s2.W i i ≠ 0) ∧
       (status = .acc → ∀ q ∈ pns, y.s.trajNum ≤ q ∧ q < s2.trajNum) ∧
@@ -368,7 +447,7 @@ theorem step_preserves5 {y y' : Sys} (k : Nat) (status : Status) (newW : List (L
       (if s2.cstep + s2.workers ≤ s2.tsteps then
           ∃ job' ds, prep s2 (some job.pin) o = .ok (y'.s, job', ds)
         else y'.s = s2) := by
-  have hinv := step_preserves k status newW o hi.inv h
+  have hinv := step_preservesR k status newW o hi.inv h
   unfold sysStep at h
   obtain ⟨hce, hfe, htn, hto⟩ := loop_frame y.s
   generalize hloop : loop y.s = r at h hce hfe htn hto
@@ -383,17 +462,18 @@ theorem step_preserves5 {y y' : Sys} (k : Nat) (status : Status) (newW : List (L
   · exact absurd h (by simp)
   rename_i s2 pns it htreat
   have hperm := held_perm_erase y.jobs k job hjob
-  have hc1 : Core s1 (heldJob job ++ held (y.jobs.eraseIdx k)) s1.trajNum := by
+  have hc1 : CoreR s1 (heldJob job ++ held (y.jobs.eraseIdx k)) s1.trajNum := by
     rw [htn]
     exact (hi.inv.core.congr hce).perm hperm
   have hf1 : Fam s1 s1.trajNum := by rw [htn]; exact hi.fam.congr hfe
+  have hd1 : DiagR s1 := hi.diagR.congr hce.W hce.locks hce.locked0 (by rw [hce.toinitiate]; exact fun h => h)
   have hjmem : job ∈ y.jobs := List.mem_of_getElem? hjob
   have hjok := hi.inv.jobs job hjmem
   have hvec : status = .acc → ∀ pw ∈ job.picked.zip newW, VecOk s1.n pw.1.ens pw.2 := by
     intro ha
     rw [hce.n]
     exact hev ha job hjob
-  obtain ⟨hc2, _, _, _, _, _, hn2, _, _⟩ := treatOutput_core job status newW _ pns it hc1 htreat
+  obtain ⟨hc2, _, _, _, _, _, hn2, _, _, _⟩ := treatOutput_coreR job status newW _ pns it hc1 htreat
   have hidle : ∃ i : Nat, s2.locks[i]? = some false := by
     have hne : job.picked ≠ [] := by
       rcases hjok.shape with h1 | h1
@@ -412,8 +492,8 @@ theorem step_preserves5 {y y' : Sys} (k : Nat) (status : Status) (newW : List (L
     refine ⟨slotOf p, unlocked_of_not_locked _ _ (by rw [hc2.lenL, hn2]; omega) ?_⟩
     intro hl
     exact hnot ((hc2.busy (slotOf p) (by rw [hn2]; exact hlt)).mp hl)
-  obtain ⟨hf2, hle, hdiag, hfresh⟩ := treatOutput_inv job status newW _ pns it hc1 hf1 hjok.ensGe
-    (hi.pnum job hjmem) hvec htreat
+  obtain ⟨hf2, hle, hdiag, hfresh, hd2⟩ := treatOutput_inv job status newW _ pns it hc1 hf1 hd1
+    hjok.ensGe (hi.pnum job hjmem) hvec htreat
   rw [htn] at hle hfresh
   rw [hto] at hdiag
   have hrest : ∀ j ∈ y.jobs.eraseIdx k, j ∈ y.jobs := fun j hj => List.mem_of_mem_eraseIdx hj
@@ -424,9 +504,9 @@ theorem step_preserves5 {y y' : Sys} (k : Nat) (status : Status) (newW : List (L
     rename_i s3 job' ds hprep
     simp only [Except.ok.injEq] at h
     subst h
-    obtain ⟨hf3, hpn⟩ := prep_fam hc2 hf2 (some job.pin) o 0 job' ds hprep
+    obtain ⟨hf3, hd3, hpn⟩ := prep_fam hc2 hf2 hd2 (some job.pin) o 0 job' ds hprep
     have htn3 := prep_trajNum (some job.pin) o 0 job' ds hc2 hprep
-    refine ⟨⟨hinv, ?_, ?_⟩, ?_, s2, job, pns, it, hjob, htreat, hc2, hf2, htn3.symm, hdiag, hfresh, hidle, ?_⟩
+    refine ⟨⟨hinv, ?_, hd3, ?_⟩, ?_, s2, job, pns, it, hjob, htreat, hc2, hf2, htn3.symm, hdiag, hfresh, hidle, ?_⟩
     · show Fam s3 s3.trajNum
       rw [htn3]; exact hf3
     · intro j hj
@@ -441,7 +521,7 @@ theorem step_preserves5 {y y' : Sys} (k : Nat) (status : Status) (newW : List (L
   · rename_i hcont
     simp only [Except.ok.injEq] at h
     subst h
-    refine ⟨⟨hinv, hf2, fun j hj => hi.pnum j (hrest j hj)⟩, hle, s2, job, pns, it, hjob, htreat, hc2,
+    refine ⟨⟨hinv, hf2, hd2, fun j hj => hi.pnum j (hrest j hj)⟩, hle, s2, job, pns, it, hjob, htreat, hc2,
       hf2, rfl, hdiag, hfresh, hidle, ?_⟩
     rw [if_neg hcont]
 
